@@ -137,6 +137,33 @@ def _nonresumable_toggles():
     return ["wrap", "finalize", {"final_plan": SEQ(M("null", None, "final-cleanup"))}, body]
 
 
+def _nonrewindable_region():
+    """Cached work, then a non-rewindable region that emits an event, then cached work without a checkpoint."""
+    return SEQ(
+        M("open_run"),
+        M("checkpoint"),
+        M("null", None, "a"),
+        M("set", "m1", 0.5, group="z"),
+        M("wait", None, group="z"),
+        M("rewindable", None, False),
+        M("null", None, "nr-1"),
+        M("sleep", None, 0.1),
+        M("create", None, name="primary"),
+        M("read", "d2"),
+        M("save"),
+        M("null", None, "nr-2"),
+        M("rewindable", None, True),
+        M("null", None, "b"),
+        M("sleep", None, 0.1),
+        M("create", None, name="primary"),
+        M("read", "d2"),
+        M("save"),
+        M("null", None, "c"),
+        point(("d2",), "m1", 1.0),
+        M("close_run"),
+    )
+
+
 def _engine_closes():
     # the plan opens a run and ends without closing it
     return SEQ(M("stage", "d1"), M("open_run"), M("checkpoint"), point(("d1",), "m1", 0.5), point(("d1",), "m1", 1.0))
@@ -228,6 +255,7 @@ CORPUS = {
     "try_finally": (_try_finally(), DEV_SYNC, 0),
     "nonresumable": (_nonresumable(), DEV_A, 0),
     "nonresumable_toggles": (_nonresumable_toggles(), DEV_A, 0),
+    "nonrewindable_region": (_nonrewindable_region(), DEV_A, 0),
     "engine_closes": (_engine_closes(), DEV_A, 0),
     "monitor": (_monitor_plan(), DEV_SYNC, 0),
     "fly": (_fly_plan(), DEV_A, 0),
